@@ -1251,6 +1251,11 @@ class H2Stream:
                 headers, hdr_validation_flags
             )
 
+        # The normalisation and validation above are lazy. Run them to
+        # completion before the encoder sees anything: a header block that is
+        # rejected must leave the compression context untouched.
+        headers = list(headers)
+
         encoded_headers = encoder.encode(headers)
 
         # Slice into blocks of max_outbound_frame_size. Be careful with this:
